@@ -6,6 +6,12 @@ import (
 	"fmt"
 
 	"github.com/CrowdStrike/csproto"
+	gogodesc "github.com/gogo/protobuf/protoc-gen-gogo/descriptor"
+	gogotypes "github.com/gogo/protobuf/types"
+	"google.golang.org/protobuf/proto"
+	"google.golang.org/protobuf/types/descriptorpb"
+	"google.golang.org/protobuf/types/known/structpb"
+	"google.golang.org/protobuf/types/known/wrapperspb"
 
 	"verifharness/bridge"
 	"verifharness/monitor"
@@ -86,6 +92,9 @@ func runC19(cfg *config, res *monitor.Result) {
 		// ref, when set, is another object with the same contents: the expected bytes are taken from it, so that msg
 		// itself has never been sized or marshaled when EncodeNested sees it (no size cache of the owning runtime is warm)
 		ref any
+		// failOnly: a case built to make the nested message's own Marshal fail; when that runtime accepts the value after all,
+		// there is nothing to compare here (the generic part needs a corpus target)
+		failOnly bool
 	}
 	check := func(nc nestedCase, tag int, position string) {
 		evals++
@@ -114,6 +123,20 @@ func runC19(cfg *config, res *monitor.Result) {
 			return // content-level defect of the nested type, not the bridge's
 		}
 		if nc.wantErr == nil && berr != nil {
+			// the nested message's own Marshal fails (invalid UTF-8, unset required field ...): the same call made through
+			// EncodeNested must fail as well - an error of the nested message propagates, nothing is reported as written
+			n := 0
+			monitor.Try(func() { n = csproto.Size(nc.msg) })
+			buf := make([]byte, csproto.SizeOfTagKey(tag)+csproto.SizeOfVarint(uint64(n))+n+len(B)+32)
+			var e error
+			if pi := monitor.Try(func() { e = csproto.NewEncoder(buf).EncodeNested(tag, nc.msg) }); pi == nil && e == nil {
+				viol("encode-error-swallowed", fmt.Sprintf("csproto.Marshal of the nested message fails (%v) but EncodeNested returned nil", berr))
+			}
+			classes[nc.kind+"/"+position+"/marshal-fails"]++
+			return
+		}
+		if nc.failOnly {
+			classes[nc.kind+"/"+position+"/runtime-accepts"]++
 			return
 		}
 		// layout: [scalar 1] nested [scalar 2] depending on position
@@ -354,6 +377,25 @@ func runC19(cfg *config, res *monitor.Result) {
 			}
 		}
 		res.Sample(map[string]any{"nested_kind": "stub-Marshal-only", "payload_len": 300, "position": "middle", "tag": 16})
+		// runtime-only children (no fast-marshal code) whose own Marshal fails, some of them after producing bytes
+		failing := []nestedCase{
+			{kind: "plain-gv2-invalid-utf8", msg: &wrapperspb.StringValue{Value: "ab\xffcd"}},
+			{kind: "plain-gv2-invalid-utf8-struct", msg: &structpb.Value{Kind: &structpb.Value_StringValue{StringValue: "\xc3\x28"}}},
+			{kind: "plain-gv2-required-unset", msg: &descriptorpb.UninterpretedOption_NamePart{IsExtension: proto.Bool(true)}},
+			{kind: "plain-gv2-required-unset-empty", msg: &descriptorpb.UninterpretedOption_NamePart{}},
+			{kind: "plain-gv2-required-unset-deep", msg: &descriptorpb.UninterpretedOption{IdentifierValue: proto.String("x"), Name: []*descriptorpb.UninterpretedOption_NamePart{{NamePart: proto.String("a")}}}},
+			{kind: "plain-gogo-required-unset", msg: &gogodesc.UninterpretedOption_NamePart{IsExtension: proto.Bool(true)}},
+			{kind: "plain-gogo-required-unset-deep", msg: &gogodesc.UninterpretedOption{IdentifierValue: proto.String("x"), Name: []*gogodesc.UninterpretedOption_NamePart{{NamePart: proto.String("a")}}}},
+			{kind: "plain-gogo-invalid-utf8", msg: &gogotypes.StringValue{Value: "ab\xffcd"}},
+		}
+		for i, nc := range failing {
+			nc.exact, nc.failOnly = true, true
+			nc.desc = map[string]any{"value": fmt.Sprintf("%+v", nc.msg)}
+			for j := range positions {
+				cfg.progress.Set("C19", nc.kind)
+				check(nc, tags[(i+j)%len(tags)], positions[j])
+			}
+		}
 	}
 	// ---- generated fast types and plain types of the three runtimes
 	var targets []target
